@@ -51,7 +51,7 @@ impl Property for C09 {
         "C09"
     }
     fn rule(&self) -> String {
-        "Generated: clean tagged token streams (whole vocabulary words of every class, speller phrases, ordinals next to cardinals, linking words, ordinary words, conjunction/separator words, period vs comma and other punctuation, numbers at both ends) with two thresholds drawn from a pool {0, 10, 3, 100, +inf, NaN, -1, -inf, 7, 1, 2, 1e300, subnormal, 0.5} or set to the exact value of one of the text's numbers +-1. Oracle: (a) occ(t) is a sub-list of occ(0) (same span, text, value, flag); (b) t1 <= t2 => occ(t2) sub-list of occ(t1); (c) t <= 0 or NaN => occ(t) == occ(0); (d) every number of occ(0) that is not small at t (small = one-character text or ordinal, value < t) is in occ(t); (e) reference policy model: a small number is rewritten iff the recognised number directly before or after it is of the same kind (cardinal/ordinal) and the tokens between them are only whitespace, bare hyphens, non-alphabetic tokens other than a lone period, or words of the language's linking vocabulary; an ordinary word or a lone period breaks; the conjunction word counts as a linking word; the model abstains (counted) when the gap contains the decimal-separator word or a number-like word outside every occurrence; (e') the same verdicts on a caller-built stream in which ignorable / ordinary tokens between the numbers are flagged 'not a number part'; (f) fixed relations: two digits separated by 1..257 commas or repetitions of a linking word are both rewritten at threshold 10; three single digits in a row (comma- or space-separated) are all rewritten at every threshold; 'w d w' with a single digit d: untouched iff d < t. Non-trivial = distinct streams with a small number whose fate is decided by a neighbour (released by a neighbour / dropped by a breaker / dropped by a kind change), or value == threshold.".into()
+        "Generated: clean tagged token streams (whole vocabulary words of every class, speller phrases, ordinals next to cardinals, linking words, ordinary words, conjunction/separator words, period vs comma and other punctuation, numbers at both ends) with two thresholds drawn from a pool {0, 10, 3, 100, +inf, NaN, -1, -inf, 7, 1, 2, 1e300, subnormal, 0.5} or set to the exact value of one of the text's numbers +-1. Oracle: (a) occ(t) is a sub-list of occ(0) (same span, text, value, flag); (b) t1 <= t2 => occ(t2) sub-list of occ(t1); (c) t <= 0 or NaN => occ(t) == occ(0); (d) every number of occ(0) that is not small at t (small = one-character text or ordinal, value < t) is in occ(t); (e) reference policy model: a small number is rewritten iff the recognised number directly before or after it is of the same kind (cardinal/ordinal) and the tokens between them are only whitespace, bare hyphens, non-alphabetic tokens other than a lone period, or words of the language's linking vocabulary; an ordinary word or a lone period breaks; the conjunction word counts as a linking word; the model abstains (counted) when the gap contains the decimal-separator word or a number-like word outside every occurrence; (e') the same verdicts on a caller-built stream in which ignorable / ordinary tokens between the numbers are flagged 'not a number part'; (f) fixed relations: two small numbers with one word between them that is derived from a linking word without being one (plural, doubled, contraction, elision; every linking word x 12 derivations, enumerated) stay in words at threshold 10; two digits separated by 1..257 commas or repetitions of a linking word are both rewritten at threshold 10; three single digits in a row (comma- or space-separated) are all rewritten at every threshold; 'w d w' with a single digit d: untouched iff d < t. Non-trivial = distinct streams with a small number whose fate is decided by a neighbour (released by a neighbour / dropped by a breaker / dropped by a kind change), or value == threshold.".into()
     }
     fn assumptions(&self) -> Vec<String> {
         vec![
@@ -79,6 +79,26 @@ impl Property for C09 {
             let sel = ThSel { kind: 0, i: ((p as u32 * 65536 + 65535) / npool as u32).min(65535) as u16, delta: 0 };
             if !emit(Case { lang, shape: "lone".into(), sent: Sentence { lead: String::new(), items: vec![] }, th: vec![sel], digits: vec![d], comma: false }) {
                 return;
+            }
+        }
+        // every linking word x 12 derivations that are NOT linking words, between two small numbers, threshold 10
+        {
+            let pos = |x: f64| THRESHOLDS.iter().position(|t| t.to_bits() == x.to_bits()).unwrap_or(0) as u32;
+            let sel = ThSel { kind: 0, i: ((pos(10.0) * 65536 + 32768) / npool as u32) as u16, delta: 0 };
+            let mut k = 0u64;
+            for lang in LANGS {
+                let nl = vocab_of(lang).linking.len();
+                for w in 0..nl {
+                    for d in 0..12u8 {
+                        k += 1;
+                        if k as usize % nshards != shard {
+                            continue;
+                        }
+                        if !emit(Case { lang: lang.to_string(), shape: "nearlink".into(), sent: Sentence { lead: String::new(), items: vec![] }, th: vec![sel.clone()], digits: vec![(w % 7) as u8, w as u8, d, ((w + d as usize) % 7) as u8], comma: false }) {
+                            return;
+                        }
+                    }
+                }
             }
         }
         // gap lengths around powers of two and round sizes
@@ -157,6 +177,49 @@ impl Property for C09 {
                 }
                 obs.label("fixed:long-gap-of-ignorable-tokens");
                 obs.nontrivial(&(l, n, c.comma, t.to_bits()));
+                return Ok(());
+            }
+            "nearlink" => {
+                // two small numbers with ONE word between them that is derived from a linking word but is not one
+                // (contraction, elision, extra letter ...): it is an ordinary word, so both numbers stay isolated
+                let t = resolve(&c.th[0], &[]);
+                let base = v.linking[c.digits[1] as usize % v.linking.len()];
+                let n = base.chars().count();
+                let x: String = match c.digits[2] % 12 {
+                    0 => format!("{}s", base),
+                    1 => format!("{}{}", base, base),
+                    2 => format!("x{}", base),
+                    3 if n >= 3 => { let (h, tl): (String, String) = (base.chars().take(n - 2).collect(), base.chars().skip(n - 2).collect()); format!("{}'{}", h, tl) }
+                    4 if n >= 2 => { let (h, tl): (String, String) = (base.chars().take(n - 1).collect(), base.chars().skip(n - 1).collect()); format!("{}'{}", h, tl) }
+                    5 => format!("l'{}", base),
+                    6 => format!("qu'{}", base),
+                    7 => format!("jusqu'{}", base),
+                    8 => format!("d'{}", base),
+                    9 => format!("{}'s", base),
+                    10 => format!("{}-{}", base, v.fillers[0]),
+                    _ => format!("un'{}", base),
+                };
+                // the derived word must not itself be a number or a published linking word in this tree
+                // ... nor a word the interpreter takes for a potential part of a number (e.g. de `undund` splits into und+und)
+                let incomplete = {
+                    let mut b1 = text2num::digit_string::DigitString::new();
+                    let mut b2 = text2num::digit_string::DigitString::new();
+                    let _ = lg.apply(&digit(2 + c.digits[0] % 7).to_lowercase(), &mut b2);
+                    matches!(lg.apply(&x.to_lowercase(), &mut b1), Err(text2num::error::Error::Incomplete)) || matches!(lg.apply(&x.to_lowercase(), &mut b2), Err(text2num::error::Error::Incomplete))
+                };
+                if incomplete || lg.is_linking(&x.to_lowercase()) || text2num::text2digits(&x, lg).is_ok() || v.conj_alts.contains(&x.as_str()) {
+                    obs.exclude("derived-word-is-linking-or-number");
+                    return Ok(());
+                }
+                let (d1, d2) = (2 + c.digits[0] % 7, 2 + c.digits[3] % 7);
+                let text = format!("{} {} {}", digit(d1), x, digit(d2));
+                let out = replace_numbers_in_text(&text, lg, t);
+                let want = if t > d1.max(d2) as f64 { text.clone() } else { out.clone() };
+                if out != want {
+                    return Err(format!("[{}] threshold {:?}: {:?} -> {:?}; the word {:?} is not a linking word, so the two small numbers are isolated and stay in words", l, t, text, out, x));
+                }
+                obs.label("fixed:near-miss-linking-word");
+                obs.nontrivial(&(l, &text));
                 return Ok(());
             }
             "lone" => {
